@@ -758,6 +758,8 @@ def Equiv (a b : St O) : Prop :=
 theorem Equiv.refl' (a : St O) : Equiv a a :=
   ⟨rfl, rfl, rfl, rfl, rfl, rfl, rfl, rfl, rfl, rfl, rfl, List.Perm.refl _, rfl, rfl, rfl⟩
 
+theorem Equiv.of_eq {a b : St O} (h : a = b) : Equiv a b := h ▸ Equiv.refl' a
+
 theorem Equiv.symm' {a b : St O} (h : Equiv a b) : Equiv b a := by
   obtain ⟨h1, h2, h3, h4, h5, h6, h7, h8, h9, h10, h11, h12, h13, h14, h15⟩ := h
   exact ⟨h1.symm, h2.symm, h3.symm, h4.symm, h5.symm, h6.symm, h7.symm, h8.symm, h9.symm, h10.symm, h11.symm,
@@ -1338,5 +1340,170 @@ theorem vec_complaint (s : St O) (v : O.Vec) (k : Nat) (hk : k ≠ s.me) (hn : K
           split
           · assumption
           · rw [applyUpd_disq]
+
+
+/-! ### the node's share and the dealer's answer to the node's own complaint, in either order (the F10 class) -/
+
+/-- a stored vector is a valid one, unless the dealer is already disqualified -/
+def VecOK (s : St O) : Prop := s.vAReceived = true → s.disqualified = false → s.vA.isSome = true
+
+theorem share_answer_me_bad (s : St O) (sc : Option Nat) (hdq : s.disqualified = false) (hwf : EntriesWF s)
+    (hvok : VecOK s) :
+    RelP (if (FvssQ.buildComplaint (markX s)).1.disqualified then (FvssQ.buildComplaint (markX s)).1
+          else raOk (FvssQ.buildComplaint (markX s)).1 s.me sc)
+         (if (raOk s s.me sc).disqualified then raOk s s.me sc
+          else (FvssQ.buildComplaint (markX (raOk s s.me sc))).1) := by
+  have hvA : s.vAReceived = true → s.vA.isSome = true := fun h => hvok h hdq
+  cases hf : s.find s.me with
+  | none =>
+    cases sc with
+    | none => left; simp [bc_eq, raOk, hf, hdq, fresh]
+    | some ans =>
+      by_cases hv : s.vAReceived = true
+      · have hi := hvA hv
+        by_cases hc : s.checkComplaint s.me { received := true, answerReceived := true, answer := ans } = true
+        · left
+          simp [bc_eq, raOk, hf, hdq, fresh, early, recv, hv, hi, hc, setC_setC]
+        · right
+          have hc' : s.checkComplaint s.me { received := true, answerReceived := true, answer := ans } = false := by
+            simpa using hc
+          simp [bc_eq, raOk, hf, hdq, fresh, early, recv, hv, hi, hc', setC_setC]
+          apply Equiv.of_eq
+          apply St.ext' <;> simp [setC_setC]
+      · right
+        have hv' : s.vAReceived = false := by simpa using hv
+        simp [bc_eq, raOk, hf, hdq, fresh, early, recv, hv', setC_setC]
+        apply Equiv.of_eq
+        apply St.ext' <;> simp [setC_setC]
+  | some c =>
+    obtain ⟨r, ar, a0⟩ := c
+    have hw := hwf s.me _ hf
+    cases r <;> cases ar
+    · simp at hw
+    · -- an early answer is registered: the malformed share triggers the complaint, a second answer is ignored
+      have hB : raOk s s.me sc = s := by simp [raOk, hf]
+      rw [hB]
+      simp only [hdq, Bool.false_eq_true, if_false]
+      right
+      by_cases hd : (FvssQ.buildComplaint (markX s)).1.disqualified = true
+      · simp only [hd, if_true]; exact Equiv.refl' _
+      · simp only [hd, Bool.false_eq_true, if_false]
+        apply Equiv.of_eq
+        by_cases hv : s.vAReceived = true
+        · have hi := hvA hv
+          by_cases hc : s.checkComplaint s.me { received := true, answerReceived := true, answer := a0 } = true <;>
+            simp [bc_eq, raOk, hf, recv, hv, hi, hc]
+        · simp [bc_eq, raOk, hf, recv, hv]
+    · -- the complaint is out already: the malformed share only sets `xReceived`
+      have hA : (FvssQ.buildComplaint (markX s)).1 = markX s := bc_received _ _ (by simpa using hf) rfl
+      rw [hA]
+      simp only [markX_disqualified, hdq, Bool.false_eq_true, if_false]
+      by_cases hd : (raOk s s.me sc).disqualified = true
+      · left
+        refine ⟨?_, by simp [hd]⟩
+        cases sc with
+        | none => simp [raOk, hf]
+        | some ans =>
+          by_cases hv : s.vAReceived = true
+          · by_cases hc : s.checkComplaint s.me { received := true, answerReceived := true, answer := ans } = true
+            · simp [raOk, hf, hv, hc]
+            · simp [raOk, hf, hv, hc, hdq] at hd
+          · simp [raOk, hf, hv, hdq] at hd
+      · right
+        simp only [hd, Bool.false_eq_true, if_false]
+        have hB : (FvssQ.buildComplaint (markX (raOk s s.me sc))).1 = markX (raOk s s.me sc) := by
+          cases sc with
+          | none => simp [raOk, hf] at hd
+          | some ans =>
+            apply bc_received _ { received := true, answerReceived := true, answer := ans }
+            · by_cases hv : s.vAReceived = true
+              · by_cases hc : s.checkComplaint s.me { received := true, answerReceived := true, answer := ans } = true <;>
+                  simp [raOk, hf, hv, hc]
+              · simp [raOk, hf, hv, hdq]
+            · rfl
+        rw [hB]
+        apply Equiv.of_eq
+        cases sc with
+        | none => simp [raOk, hf] at hd
+        | some ans =>
+          by_cases hv : s.vAReceived = true
+          · by_cases hc : s.checkComplaint s.me { received := true, answerReceived := true, answer := ans } = true
+            · simp [raOk, hf, hv, hc] at hd
+            · simp [raOk, hf, hv, hc]
+              apply St.ext' <;> simp
+          · simp [raOk, hf, hv, hdq]
+            apply St.ext' <;> simp
+    · have hA : (FvssQ.buildComplaint (markX s)).1 = markX s := bc_received _ _ (by simpa using hf) rfl
+      have hB : raOk s s.me sc = s := by simp [raOk, hf]
+      rw [hA, hB]
+      simp only [markX_disqualified, hdq, Bool.false_eq_true, if_false, hA]
+      right
+      apply Equiv.of_eq
+      simp [raOk, hf]
+
+theorem share_answer_me_good (s : St O) (x0 : Nat) (sc : Option Nat) (hdq : s.disqualified = false)
+    (hwf : EntriesWF s) (hvok : VecOK s) (hown : ∀ c, s.find s.me = some c → c.received = false) :
+    RelP (if (rsOk s x0).disqualified then rsOk s x0 else raOk (rsOk s x0) s.me sc)
+         (if (raOk s s.me sc).disqualified then raOk s s.me sc else rsOk (raOk s s.me sc) x0) := by
+  have hvA : s.vAReceived = true → s.vA.isSome = true := fun h => hvok h hdq
+  cases hf : s.find s.me with
+  | none =>
+    cases sc with
+    | none =>
+      left
+      by_cases hv : s.vAReceived = true
+      · have hi := hvA hv
+        by_cases hl : (setX s x0).verifyShare = true <;>
+          simp [rsOk, bc_eq, raOk, hf, hdq, fresh, hv, hi, hl]
+      · simp [rsOk, raOk, hf, hdq, hv]
+    | some ans =>
+      by_cases hv : s.vAReceived = true
+      · have hi := hvA hv
+        by_cases hl : (setX s x0).verifyShare = true
+        · right
+          have hl2 : (setX (s.setC s.me (early ans)) x0).verifyShare = true := hl
+          simp [rsOk, raOk, hf, hdq, hv, hl, hl2]
+          apply Equiv.of_eq
+          apply St.ext' <;> simp
+        · have hl' : (setX s x0).verifyShare = false := by simpa using hl
+          have hl2 : (setX (s.setC s.me { received := false, answerReceived := true, answer := ans }) x0).verifyShare = false := hl'
+          by_cases hc : s.checkComplaint s.me { received := true, answerReceived := true, answer := ans } = true
+          · left
+            simp [rsOk, bc_eq, raOk, hf, hdq, fresh, early, recv, hv, hi, hl', hl2, hc, setC_setC]
+          · right
+            have hc' : s.checkComplaint s.me { received := true, answerReceived := true, answer := ans } = false := by
+              simpa using hc
+            simp [rsOk, bc_eq, raOk, hf, hdq, fresh, early, recv, hv, hi, hl', hl2, hc', setC_setC]
+            apply Equiv.of_eq
+            apply St.ext' <;> simp [setC_setC]
+      · right
+        have hv' : s.vAReceived = false := by simpa using hv
+        simp [rsOk, raOk, hf, hdq, hv']
+        apply Equiv.of_eq
+        apply St.ext' <;> simp
+  | some c =>
+    obtain ⟨r, ar, a0⟩ := c
+    have hw := hwf s.me _ hf
+    have hr := hown _ hf
+    simp only at hr
+    subst hr
+    cases ar
+    · simp at hw
+    · -- an early answer is registered: a second answer is ignored, before or after the share
+      have hB : raOk s s.me sc = s := by simp [raOk, hf]
+      rw [hB]
+      simp only [hdq, Bool.false_eq_true, if_false]
+      right
+      by_cases hd : (rsOk s x0).disqualified = true
+      · simp only [hd, if_true]; exact Equiv.refl' _
+      · simp only [hd, Bool.false_eq_true, if_false]
+        apply Equiv.of_eq
+        by_cases hv : s.vAReceived = true
+        · have hi := hvA hv
+          by_cases hl : (setX s x0).verifyShare = true
+          · simp [rsOk, raOk, hf, hv, hl]
+          · by_cases hc : s.checkComplaint s.me { received := true, answerReceived := true, answer := a0 } = true <;>
+              simp [rsOk, bc_eq, raOk, hf, recv, hv, hi, hl, hc]
+        · simp [rsOk, raOk, hf, hv]
 
 end Proofs.DkgCommute
